@@ -30,7 +30,7 @@ BigRowOK(r) ==
     /\ (n >= 1 => FactOKBig(n, r[4], 1))
 
 \* pi(1e6), pi(1e7): constants of arithmetic
-PiKnown(N) == CASE N = 1000000 -> 78498 [] N = 10000000 -> 664579 [] OTHER -> -1
+PiKnown(N) == CASE N = 1000000 -> 78498 [] N = 2000000 -> 148933 [] N = 10000000 -> 664579 [] OTHER -> -1
 
 PairOK(p) == p[2] < p[3] /\ IsPrimeBig(p[2]) /\ IsPrimeBig(p[3]) /\ \A x \in p[2] + 1 .. p[3] - 1 : ~IsPrimeBig(x)
 
@@ -52,7 +52,10 @@ Step(e) ==
                 LET B == {i \in 1 .. Len(e.rows) : ~BigRowOK(e.rows[i])}
                 IN (B # {}) => Mismatch(l, [ev |-> "bigsample", N |-> e.N], [wrong_rows |-> {e.rows[i] : i \in B}])
            [] e.ev = "bigprimes" ->
-                /\ (e.len # PiKnown(e.N)) => Mismatch(l, [ev |-> "bigprimes", N |-> e.N, len |-> e.len], [pi |-> PiKnown(e.N)])
+                /\ (PiKnown(e.N) # -1 /\ e.len # PiKnown(e.N)) => Mismatch(l, [ev |-> "bigprimes", N |-> e.N, len |-> e.len], [pi |-> PiKnown(e.N)])
+                \* the list ends with the largest prime <= N (limits whose prime count is not a tabulated constant)
+                /\ ("last" \in DOMAIN e /\ ~(e.last <= e.N /\ IsPrimeBig(e.last) /\ \A x \in e.last + 1 .. e.N : ~IsPrimeBig(x))) =>
+                       Mismatch(l, [ev |-> "bigprimes", N |-> e.N, last |-> e.last], "the prime list does not end with the largest prime <= N")
                 /\ LET B == {i \in 1 .. Len(e.pairs) : ~PairOK(e.pairs[i])}
                    IN (B # {}) => Mismatch(l, [ev |-> "bigprimes", N |-> e.N], [not_consecutive_primes |-> {e.pairs[i] : i \in B}])
            [] OTHER -> TRUE
